@@ -33,6 +33,8 @@ def run_one(m, tier, idx):
     try:
         if "patch" in m:
             r = sh(f"git -C {wt} apply {m['patch']}")
+            if r.returncode:  # the patch was written against an older HEAD: fall back to a 3-way merge
+                r = sh(f"git -C {wt} apply --3way {m['patch']}")
             if r.returncode:
                 return m, {"error": "patch does not apply: " + r.stderr}
         else:
